@@ -37,6 +37,47 @@ def build_cases(ctx, n_stmts, muts, n_soups, n_gram=30):
         vocab = vocabulary(d, pick[:200])
         for s in soups(d, rng, n_soups, vocab):
             cases.append((s, d, 'soup'))
+    # keywords spelled with the non-ASCII letters that a case-insensitive pattern takes for i, s and k (dotless / dotted I,
+    # long s, Kelvin sign): the lexer accepts them, so every grammar action must cope with the spelling
+    from .corpus import lex_spans
+    fold = {'i': '\u0131', 'I': '\u0130', 's': '\u017f', 'S': '\u017f', 'k': '\u212a', 'K': '\u212a'}
+    for d in DIALECTS:
+        acc_ = list(accepted(d))
+        rng.shuffle(acc_)
+        n_f = 0
+        for s_ in acc_:
+            sp = lex_spans(d, s_)
+            if not sp or len(sp) > 40:
+                continue
+            for j, (ty, a_, b_) in enumerate(sp):
+                lx_ = s_[a_:b_]
+                if ty in ('ID', 'QUOTE_STRING', 'DQUOTE_STRING', 'VARIABLE', 'SYSTEM_VARIABLE', 'INTEGER', 'FLOAT') or not lx_.isalpha():
+                    continue
+                for k_, ch in enumerate(lx_):
+                    if ch in fold:
+                        cases.append((s_[:a_ + k_] + fold[ch] + s_[a_ + k_ + 1:], d, 'keyword-unicode-casefold'))
+                        n_f += 1
+                        break
+            if n_f >= (n_stmts // 2 if n_stmts < 1000 else 600):
+                break
+    # ... and every keyword of the grammar once (taken from the production-cover sentences), every foldable letter of it
+    from . import grammargen as _gg
+    for d in DIALECTS:
+        done_ty = set()
+        for s_, types, _u in _gg.cover_texts(ctx, d, variants=1):
+            sp = lex_spans(d, s_)
+            if not sp:
+                continue
+            for ty, a_, b_ in sp:
+                lx_ = s_[a_:b_]
+                if ty in done_ty or ty in ('ID', 'QUOTE_STRING', 'DQUOTE_STRING', 'VARIABLE', 'SYSTEM_VARIABLE', 'INTEGER', 'FLOAT'):
+                    continue
+                if not any(ch in fold for ch in lx_):
+                    continue
+                done_ty.add(ty)
+                for k_, ch in enumerate(lx_):
+                    if ch in fold:
+                        cases.append((s_[:a_ + k_] + fold[ch] + s_[a_ + k_ + 1:], d, 'keyword-unicode-casefold'))
     # one representative (or several) of every Unicode general category, in several positions: alone, in a statement,
     # after a syntax error (the error callback drains the remaining tokens), inside quotes
     import unicodedata
@@ -136,12 +177,18 @@ def run(ctx):
     # backtracking pattern explode (2^n).  Budget: 30 s for inputs a linear lexer handles in microseconds.
     import subprocess
     from .common import PY, REPO, VERIF
+    cases_long = []
     adv = []
     for q in ("'", '"', '`'):
         for unit in ('\\a', '\\\\', '\\' + q, q + q, 'a' + q + q):
             adv.append('select ' + q + unit * 32)
     adv += ['select /* ' + '*/*' * 40 + ' /', 'select -- ' + '-' * 3000, 'select ' + '(' * 60 + '1', 'select @`' + '\\a' * 32,
             'select ' + '1e' * 40, 'select a' + ' -- c\n' * 200]
+    # long literals (python refuses int() of more than 4300 digits)
+    for s_ in ('select ' + '9' * 5000, 'select a from t limit ' + '1' * 4400, 'select 1.' + '9' * 5000, "select '" + 'x' * 20000 + "'",
+               'select ' + 'a' * 20000, 'select `' + 'b' * 5000 + '`', 'select a from t where b in (' + ', '.join(['1'] * 500) + ')'):
+        for d_ in DIALECTS:
+            cases_long.append((s_, d_, 'long-literal'))
     for d in DIALECTS:
         code = ('import sys, json\nfrom mindsdb_sql import parse_sql\nfor s in json.loads(sys.stdin.read()):\n'
                 '    try:\n        parse_sql(s, %r)\n    except Exception:\n        pass\n    print("done", flush=True)\n' % d)
@@ -188,6 +235,7 @@ def run(ctx):
     from .corpus import pmap
     cases = build_cases(ctx, 2000 if thorough else 220, 30 if thorough else 10, 6000 if thorough else 700,
                         150 if thorough else 16)
+    cases += cases_long
     all_cases = cases
     outcomes = {}
     n_valid = 0
